@@ -193,9 +193,9 @@ def run(ctx):
     ctx.oblige("corr:anonLeafOK-holds-on-real-trees(hypothesis of named_child_spec)", anon_hyp_bad == 0, "%d trees" % anon_hyp_bad)
     ctx.oblige("corr:StackOK-linkage-holds-on-every-cursor-stack(hypothesis of cursor_next_sibling_spec)", stack_bad == 0, "%d stacks" % stack_bad)
     ctx.oblige("corr:hiddenExtraOK-holds-on-real-trees(hypothesis of field_name_for_child_spec)", hidden_extra_bad == 0, "%d trees" % hidden_extra_bad)
-    ctx.oblige("corr:parent_spec-hypotheses-hold-on-every-non-empty-node-of-real-trees(pathOK: slot ids distinct along the search; "
+    ctx.oblige("corr:parent_spec-hypotheses-hold-on-every-relevant-node-of-real-trees(non-empty: pathOK, slot ids distinct along the search; empty: psPathOK of parent_spec_empty; "
                "and ported ts_node_parent = parentOnPath)", par["parbad"] == 0 and (par["parchk"] > 0 or evals == 0 or bool(ctx.replay)),
-               "%d nodes checked, %d zero-width nodes excluded by the hypothesis, %d bad %s" % (par["parchk"], par["parzw"], par["parbad"], "; ".join(par_bad_cases)))
+               "%d nodes checked, %d of them zero-width (parent_spec_empty), %d bad %s" % (par["parchk"], par["parzw"], par["parbad"], "; ".join(par_bad_cases)))
     ctx.oblige("corr:parentOnPath=parent-in-the-flattened-tree(on every node checked)", par["parflat"] == 0, "%d differ %s" % (par["parflat"], "; ".join(par_bad_cases)))
     ctx.oblige("corr:next_sibling_spec-conclusion-holds-wherever-its-hypotheses-hold(non-empty node, nsPathOK: no zero-width raw node follows "
                "within the parent; nodes failing the hypothesis are counted as outside the theorem)", par["nsbad"] == 0 and (par["nschk"] > 0 or evals == 0 or bool(ctx.replay)),
@@ -224,7 +224,7 @@ def run(ctx):
                                                     "conclusion_failures": par["psbad"], "earlierOnPath_vs_flatten_prev_sibling_differences": par["psflat"]}
     ctx.coverage["next_sibling_spec_hypotheses"] = {"nodes_checked": par["nschk"], "nodes_outside_the_theorem(zero-width raw node follows)": par["nsout"],
                                                     "conclusion_failures": par["nsbad"], "laterOnPath_vs_flatten_next_sibling_differences": par["nsflat"]}
-    ctx.coverage["parent_spec_hypotheses"] = {"non_empty_nodes_checked": par["parchk"], "zero_width_nodes_outside_the_theorem": par["parzw"],
+    ctx.coverage["parent_spec_hypotheses"] = {"nodes_checked": par["parchk"], "zero_width_nodes_checked_with_parent_spec_empty": par["parzw"],
                                               "hypothesis_or_conclusion_failures": par["parbad"], "parentOnPath_vs_flatten_parent_differences": par["parflat"]}
     ctx.coverage["trees_with_hidden_missing_node"] = hidden_missing_trees
     ctx.coverage.update({
